@@ -104,7 +104,7 @@ def multiword_gaps(toks):
 
 
 SEP_KINDS = ['space', 'spaces', 'tab', 'lf', 'crlf', 'lflf', 'line_comment_closed', 'line_comment_eol', 'block',
-             'block_nested', 'block_multiline', 'comment_with_quote', 'block_with_dashes', 'none']
+             'block_nested', 'block_nested_multiline', 'block_multiline', 'comment_with_quote', 'block_with_dashes', 'none']
 
 
 def make_sep(rnd, kind):
@@ -128,6 +128,9 @@ def make_sep(rnd, kind):
         return ' /* c */ '
     if kind == 'block_nested':
         return ' /* a /* nested */ b */ '
+    if kind == 'block_nested_multiline':
+        return rnd.choice([' /* outer\n line /* inner */ tail */ ', ' /* a\n\n /* b\n c */\n d */ ',
+                           ' /* X ::= INTEGER\n /* old */ /* older\n */\n Y ::= NULL */ '])
     if kind == 'block_multiline':
         return ' /* first line\n second line\n third */ '
     if kind == 'comment_with_quote':
